@@ -414,6 +414,10 @@ def op_catalogue(op: dict, log: EventLog, viol: list, stats: Counter) -> None:
             if verdict is True:
                 stats["catalogue_exported_correct"] += 1
     log.add(op="catalogue", pid=pid, raised=type(raised).__name__ if raised else None, correct=verdict)
+    _CATALOGUE_OUTCOMES[pid + ("|after:" + ",".join(q.rsplit("::", 1)[1] for q in op["pre"]) if op.get("pre") else "")] = "loud" if raised is not None else ("correct" if verdict is True else str(verdict))
+
+
+_CATALOGUE_OUTCOMES: dict[str, str] = {}
 
 
 def np_shape(x: Any) -> Any:
@@ -535,6 +539,7 @@ def run(plan: dict) -> dict:
         "n_events": len(log.lines),
         "samples": samples,
         "programs": programs_done,
+        "catalogue_outcomes": dict(_CATALOGUE_OUTCOMES),
     }
 
 
@@ -610,9 +615,11 @@ def main(tier: str) -> int:
     samples: list = []
     progs: list = []
     digests = set()
+    cat_out: dict[str, str] = {}
     for r in results:
         if not r:
             continue
+        cat_out.update(r.get("catalogue_outcomes", {}))
         stats.update(r.get("stats", {}))
         samples.extend(r.get("samples", [])[:1])
         progs.extend(r.get("programs", []))
@@ -658,6 +665,7 @@ def main(tier: str) -> int:
                 "stub": "only the injected exception at pass entry and the seven misbehaving-lowering stand-ins (empty registry / returns nothing / binds an unproduced value / raises / input unbound / too many values / non-value)",
             },
             "program_table_head": progs[:8],
+            "catalogue_entries_neither_loud_nor_checked_correct": {k: v for k, v in sorted(cat_out.items()) if v not in ("loud", "correct")},
         },
         "assumptions": [
             "crash points are pass boundaries (pass entry); mid-pass aborts are outside the property's quantifier",
